@@ -1735,6 +1735,23 @@ static Value builtin_reduce(Value *args, Environment *env) {
  * End of Math and Utility Built-in Functions
  * ========================================================================== */
 
+/* Leave a lexical scope: forget the names defined since `scope_start`, so an
+ * inner `let` that shadows an outer name ends with its block and a loop body
+ * does not grow the symbol table on every iteration.  Like the for-loop and
+ * match-arm clean-up, the values are not released: the block's result (or an
+ * aggregate built inside the block) may still refer to them. */
+static void env_leave_scope(Environment *env, int scope_start) {
+    for (int i = scope_start; i < env->symbol_count; i++) {
+        free(env->symbols[i].name);
+        if (env->symbols[i].struct_type_name) {
+            free(env->symbols[i].struct_type_name);
+        }
+    }
+    if (env->symbol_count > scope_start) {
+        env->symbol_count = scope_start;
+    }
+}
+
 /* Helper to convert value to boolean */
 static bool is_truthy(Value val) {
     switch (val.type) {
@@ -4123,6 +4140,7 @@ static Value eval_expression(ASTNode *expr, Environment *env) {
              * Execute statements and return the last return value
              */
             Value result = create_void();
+            int scope_start = env->symbol_count;
             for (int i = 0; i < expr->as.block.count; i++) {
                 result = eval_statement(expr->as.block.statements[i], env);
                 /* If statement returned a value, propagate it immediately */
@@ -4131,9 +4149,10 @@ static Value eval_expression(ASTNode *expr, Environment *env) {
                     result.is_return = false;
                     result.is_break = false;
                     result.is_continue = false;
-                    return result;
+                    break;
                 }
             }
+            env_leave_scope(env, scope_start);
             return result;
         }
 
@@ -4432,13 +4451,15 @@ static Value eval_statement(ASTNode *stmt, Environment *env) {
 
         case AST_BLOCK: {
             Value result = create_void();
+            int scope_start = env->symbol_count;
             for (int i = 0; i < stmt->as.block.count; i++) {
                 result = eval_statement(stmt->as.block.statements[i], env);
                 /* If statement returned a value, propagate it immediately */
                 if (result.is_return || result.is_break || result.is_continue) {
-                    return result;
+                    break;
                 }
             }
+            env_leave_scope(env, scope_start);
             return result;
         }
 
@@ -4482,13 +4503,15 @@ static Value eval_statement(ASTNode *stmt, Environment *env) {
         case AST_UNSAFE_BLOCK: {
             /* Unsafe blocks are treated like regular blocks in the interpreter */
             Value result = create_void();
+            int scope_start = env->symbol_count;
             for (int i = 0; i < stmt->as.unsafe_block.count; i++) {
                 result = eval_statement(stmt->as.unsafe_block.statements[i], env);
                 /* If statement returned a value, propagate it immediately */
                 if (result.is_return || result.is_break || result.is_continue) {
-                    return result;
+                    break;
                 }
             }
+            env_leave_scope(env, scope_start);
             return result;
         }
 
